@@ -12,6 +12,7 @@ import (
 	"verifharness/core"
 	_ "verifharness/fam/ast"
 	_ "verifharness/fam/enums"
+	_ "verifharness/fam/ident"
 	_ "verifharness/fam/indent"
 	_ "verifharness/fam/numbers"
 	_ "verifharness/fam/ranges"
